@@ -344,27 +344,23 @@ Lemma alive_kill info o : o < length info -> alive_in (kill info o) o = false.
 Proof. intros H. unfold alive_in. rewrite info_of_kill. rewrite Nat.eqb_refl. apply Nat.ltb_lt in H. rewrite H. reflexivity. Qed.
 
 (* ------------------------------------------------------------------------------------------ atoms accounting *)
-Fixpoint held (a : nat) (info : list oinfo) : Z :=
-  match info with
-  | [] => 0%Z
-  | i :: l => (Z.of_nat (cnt a (i_atoms i)) + held a l)%Z
-  end.
+Notation held := held_atoms.
 
 (* the engine-side reference count of every atom = number of atom objects held by (live) atom groups *)
 Definition acct (m : mstate) : Prop :=
   forall a, a < length (m_atoms m) -> nth a (m_atoms m) 0%Z = held a (m_info m).
 
 Lemma held_app a l1 l2 : held a (l1 ++ l2) = (held a l1 + held a l2)%Z.
-Proof. induction l1 as [|i l1 IH]; cbn [held app]; [lia | rewrite IH; lia]. Qed.
+Proof. induction l1 as [|i l1 IH]; cbn [held_atoms app]; [lia | rewrite IH; lia]. Qed.
 
 Lemma held_nonneg a info : (0 <= held a info)%Z.
-Proof. induction info as [|i l IH]; cbn [held]; lia. Qed.
+Proof. induction info as [|i l IH]; cbn [held_atoms]; lia. Qed.
 
 Lemma held_kill a : forall info o, held a (kill info o) = (held a info - Z.of_nat (cnt a (i_atoms (info_of info o))))%Z.
 Proof.
   induction info as [|i l IH]; intros o.
   - unfold kill, info_of. destruct o; cbn; lia.
-  - destruct o as [|o]; unfold kill, info_of; cbn [upd_nth nth held i_atoms].
+  - destruct o as [|o]; unfold kill, info_of; cbn [upd_nth nth held_atoms i_atoms].
     + cbn [cnt count_occ]. lia.
     + fold (kill l o). rewrite IH. unfold info_of. lia.
 Qed.
@@ -1007,7 +1003,7 @@ Section Run.
   Lemma push_obj_acct cls avail atoms m : acct m -> acct (push_obj cls avail atoms m).
   Proof.
     intros A a La. unfold push_obj in *. cbn [m_atoms m_info] in *. rewrite acquire_length in La.
-    rewrite acquire_nth by exact La. rewrite held_app. cbn [held i_atoms]. rewrite (A a La). lia.
+    rewrite acquire_nth by exact La. rewrite held_app. cbn [held_atoms i_atoms]. rewrite (A a La). lia.
   Qed.
 
   Lemma link_acct n p c m m' : link T n p c m = Some m' -> acct m -> acct m'.
@@ -1076,7 +1072,7 @@ Section Run.
       assert (P : forall o, parents [] o = []) by (intros o; apply parents_overflow; cbn; lia).
       assert (I : forall o, info_of [] o = info_default) by (intros o; apply info_of_overflow; cbn; lia).
       constructor; intros; rewrite ?C, ?P, ?I in *; cbn in *; auto; try contradiction; try lia.
-    - intros a La. unfold m_empty. cbn [m_atoms m_info held]. apply nth_repeat_Z.
+    - intros a La. unfold m_empty. cbn [m_atoms m_info held_atoms]. apply nth_repeat_Z.
   Qed.
 
   (* atoms no longer used are released *)
@@ -1086,7 +1082,7 @@ Section Run.
     intros H D.
     assert (G : forall o, cnt a (i_atoms (info_of info o)) = 0).
     { intros o. destruct (alive_in info o) eqn:E; [apply cnt_notIn; apply H; exact E | rewrite (D o E); reflexivity]. }
-    clear H D. induction info as [|i l IH]; [reflexivity|]. cbn [held].
+    clear H D. induction info as [|i l IH]; [reflexivity|]. cbn [held_atoms].
     pose proof (G 0) as G0. unfold info_of in G0. cbn [nth] in G0. rewrite G0.
     rewrite IH; [reflexivity|]. intros o. specialize (G (S o)). unfold info_of in *. cbn [nth] in G. exact G.
   Qed.
@@ -1099,3 +1095,76 @@ Section Run.
     intros o Ho. destruct (wf_dead _ _ W o Ho) as (_ & _ & R). exact R.
   Qed.
 End Run.
+
+(* ------------------------------------------------------------------------------------------ the finite checkers are sound *)
+Lemma nil_nat_true l : nil_nat l = true -> l = [].
+Proof. destruct l; [reflexivity | discriminate]. Qed.
+
+Lemma acct_check_sound m : acct_check m = true -> acct m.
+Proof.
+  unfold acct_check. rewrite forallb_forall. intros H a La. specialize (H a ltac:(apply in_seq; lia)).
+  apply Z.eqb_eq in H. exact H.
+Qed.
+
+Lemma wf_check_sound m : wf_check m = true -> wf m.
+Proof.
+  unfold wf_check. cbv zeta. intros H. apply andb_true_iff in H. destruct H as [Hl H]. apply Nat.eqb_eq in Hl.
+  rewrite forallb_forall in H.
+  set (s := m_objs m) in *. set (info := m_info m) in *.
+  assert (P : forall p, p < length s ->
+    (forall c, In c (children s p) -> c < length s) /\ (forall c, In c (parents s p) -> c < length s) /\
+    (forall c, c < length s -> cnt c (children s p) = cnt p (parents s c)) /\
+    (forall c, c < length s -> cnt p (children s c) = cnt c (parents s p)) /\
+    (forall c, In c (children s p) -> class s c = S (class s p)) /\
+    (3 <= class s p -> children s p = []) /\
+    (alive_in info p = false -> children s p = [] /\ parents s p = [] /\ i_atoms (info_of info p) = []) /\
+    (2 <= class s p -> length (parents s p) <= 1) /\
+    (class s p <> 3 -> i_atoms (info_of info p) = [])).
+  { intros p Lp. specialize (H p ltac:(apply in_seq; lia)).
+    apply andb_true_iff in H. destruct H as [H Xi]. apply andb_true_iff in H. destruct H as [H Xh].
+    apply andb_true_iff in H. destruct H as [H Xg]. apply andb_true_iff in H. destruct H as [H Xf].
+    apply andb_true_iff in H. destruct H as [H Xe]. apply andb_true_iff in H. destruct H as [H Xd].
+    apply andb_true_iff in H. destruct H as [H Xc]. apply andb_true_iff in H. destruct H as [Xa Xb].
+    rewrite forallb_forall in Xa. rewrite forallb_forall in Xb. rewrite forallb_forall in Xc. rewrite forallb_forall in Xd. rewrite forallb_forall in Xe.
+    split; [intros c Hc; specialize (Xa c Hc); apply Nat.ltb_lt in Xa; exact Xa|].
+    split; [intros c Hc; specialize (Xb c Hc); apply Nat.ltb_lt in Xb; exact Xb|].
+    split; [intros c Lc; specialize (Xc c ltac:(apply in_seq; lia)); apply Nat.eqb_eq in Xc; exact Xc|].
+    split; [intros c Lc; specialize (Xd c ltac:(apply in_seq; lia)); apply Nat.eqb_eq in Xd; exact Xd|].
+    split; [intros c Hc; specialize (Xe c Hc); apply Nat.eqb_eq in Xe; exact Xe|].
+    split.
+    { intros K. apply orb_true_iff in Xf. destruct Xf as [Xf|Xf]; [apply Nat.ltb_lt in Xf; unfold class in K; lia | apply nil_nat_true; exact Xf]. }
+    split.
+    { intros A. apply orb_true_iff in Xg. destruct Xg as [Xg|Xg]; [unfold alive_in, info_of in A; congruence|].
+      apply andb_true_iff in Xg. destruct Xg as [Xg Xg3]. apply andb_true_iff in Xg. destruct Xg as [Xg1 Xg2].
+      split; [apply nil_nat_true; exact Xg1|]. split; [apply nil_nat_true; exact Xg2 | apply nil_nat_true; exact Xg3]. }
+    split.
+    { intros K. apply orb_true_iff in Xh. destruct Xh as [Xh|Xh]; [apply Nat.ltb_lt in Xh; unfold class in K; lia | apply Nat.leb_le in Xh; exact Xh]. }
+    { intros K. apply orb_true_iff in Xi. destruct Xi as [Xi|Xi]; [apply Nat.eqb_eq in Xi; unfold class in K; congruence | apply nil_nat_true; exact Xi]. } }
+  assert (Out : forall p, length s <= p -> children s p = [] /\ parents s p = [] /\ class s p = 0 /\ info_of info p = info_default).
+  { intros p Lp. split; [apply children_overflow; exact Lp|]. split; [apply parents_overflow; exact Lp|].
+    split; [unfold class; rewrite get_obj_overflow by exact Lp; reflexivity | apply info_of_overflow; lia]. }
+  assert (NotIn : forall x l, (forall c, In c l -> c < length s) -> length s <= x -> cnt x l = 0).
+  { intros x l Hl' Lx. apply cnt_notIn. intros Hin. specialize (Hl' x Hin). lia. }
+  unfold wf. fold s info. constructor.
+  - exact Hl.
+  - intros p c. destruct (Nat.lt_ge_cases p (length s)) as [Lp|Lp]; destruct (Nat.lt_ge_cases c (length s)) as [Lc|Lc].
+    + destruct (P p Lp) as (_ & _ & A & _). apply A. exact Lc.
+    + destruct (Out c Lc) as (_ & B & _). rewrite B. destruct (P p Lp) as (A & _). rewrite (NotIn c _ A Lc). reflexivity.
+    + destruct (Out p Lp) as (B & _). rewrite B. destruct (P c Lc) as (_ & A & _). rewrite (NotIn p _ A Lp). reflexivity.
+    + destruct (Out p Lp) as (B & _). destruct (Out c Lc) as (_ & B' & _). rewrite B, B'. reflexivity.
+  - intros p c Hc. destruct (Nat.lt_ge_cases p (length s)) as [Lp|Lp].
+    + destruct (P p Lp) as (_ & _ & _ & _ & A & _). apply A. exact Hc.
+    + destruct (Out p Lp) as (B & _). rewrite B in Hc. contradiction.
+  - intros p K. destruct (Nat.lt_ge_cases p (length s)) as [Lp|Lp].
+    + destruct (P p Lp) as (_ & _ & _ & _ & _ & A & _). apply A. exact K.
+    + apply (Out p Lp).
+  - intros p A. destruct (Nat.lt_ge_cases p (length s)) as [Lp|Lp].
+    + destruct (P p Lp) as (_ & _ & _ & _ & _ & _ & B & _). apply B. exact A.
+    + destruct (Out p Lp) as (B1 & B2 & _ & B4). rewrite B4. auto.
+  - intros p K. destruct (Nat.lt_ge_cases p (length s)) as [Lp|Lp].
+    + destruct (P p Lp) as (_ & _ & _ & _ & _ & _ & _ & B & _). apply B. exact K.
+    + destruct (Out p Lp) as (_ & B & _). rewrite B. cbn. lia.
+  - intros p K. destruct (Nat.lt_ge_cases p (length s)) as [Lp|Lp].
+    + destruct (P p Lp) as (_ & _ & _ & _ & _ & _ & _ & _ & B). apply B. exact K.
+    + destruct (Out p Lp) as (_ & _ & _ & B). rewrite B. reflexivity.
+Qed.
